@@ -39,7 +39,7 @@ def run(ctx):
             "injective in (network, instance, round, phase, supplemental data, chain) (C14); sha256 collision-free",
             "power-table CID = identity of the serialized table (blake2b collision-free); interning of keys/tipset keys/CIDs "
             "by the harness (equal bytes <=> equal id)",
-            "bitfield iteration yields strictly increasing indices (go-bitfield)",
+            "bitfield iteration yields strictly increasing indices (go-bitfield; the model refuses other lists: VErr.signerOrder, the parser treats them as unparseable)",
         ],
         assumptions=[
             "powers are arbitrary-precision integers (go-state-types/big)",
